@@ -11,7 +11,7 @@ from ..base_model import BaseModel
 from ..data_container import DataContainer
 from ..preprocessing.preprocessor import Preprocessor
 from ..utils.data_types import DataArray, DataObject
-from ..utils.sanity_checks import validate_input_type
+from ..utils.sanity_checks import sanity_check_n_modes, validate_input_type
 from ..utils.xarray_utils import convert_to_dim_type
 
 xr.set_options(keep_attrs=True)
@@ -70,6 +70,9 @@ class BaseModelSingleSet(BaseModel):
         solver_kwargs={},
     ):
         super().__init__()
+
+        # Not every model passes n_modes on to a solver that validates it
+        sanity_check_n_modes(n_modes)
 
         self.n_modes = n_modes
         self.sample_name = sample_name
